@@ -11,8 +11,12 @@ have = sorted(f[:-3] for f in os.listdir(os.path.join(C.VERIF, "harness", "props
 repo_commits = []
 kf = os.path.join(C.VERIF, "known_findings.txt")
 checks = []
+ready = []
 for pid in have:
     mod = importlib.import_module("props.%s" % pid)
+    if not getattr(mod, "READY", False):
+        continue
+    ready.append(pid)
     checks.append({
         "property_id": pid,
         "quick_cmd": "./check %s --tier quick" % pid,
@@ -28,7 +32,7 @@ for pid in have:
         "level_note": getattr(mod, "LEVEL_NOTE", ""),
         "technique": getattr(mod, "TECHNIQUE", "machine-checked proof in Coq 8.16 about a Gallina model + correspondence check of the extracted model against the implementation"),
     })
-na = [{"property_id": p, "reason": "no check registered yet for this property in this revision (see DESIGN.md section 10, status)"} for p in ALL if p not in have]
+na = [{"property_id": p, "reason": "no check registered yet for this property in this revision (see DESIGN.md section 10, status)"} for p in ALL if p not in ready]
 m = {
     "version": 1,
     "setup_cmd": "./setup.sh",
@@ -42,7 +46,7 @@ m = {
     "engines": [{
         "name": "coq-proof+correspondence",
         "path": "/verif/check",
-        "serves_properties": have,
+        "serves_properties": ready,
         "kind_free_text": "Coq 8.16.1 theorems over hand-written Gallina models (coq/), the same definitions extracted to OCaml and run against /repo's implementation on generated inputs (harness/), property oracles as failing-input search",
     }],
     "checks": checks,
@@ -51,4 +55,4 @@ m = {
 if na:
     m["not_applicable"] = na
 json.dump(m, open(os.path.join(C.VERIF, "MANIFEST.json"), "w"), indent=1)
-print("claimed:", have)
+print("claimed:", ready)
